@@ -16,7 +16,7 @@ import (
 var Shapes = []string{
 	"text", "textcrlf", "html", "cyrillic", "cjk", "utf8big", "dna", "numeric", "base64",
 	"elfx86", "pe", "elfarm64", "elfbogus", "pebogus", "machobogus", "wav", "bmp", "ppm", "runs", "zeros",
-	"skewed", "raredom", "ramp255", "ramp256", "smallalpha", "periodic", "random", "magicmix", "repeatblocks", "sorted", "utf8dirty", "longruns", "farmatch", "crlfcut", "constchunks", "randtext", "bigvocab", "fsdstress", "ffmix", "wordlist", "wordlist3", "staircase", "staircase2", "clusterq", "fibword", "thuemorse", "bigperiod", "utfcont", "rangeedge",
+	"skewed", "raredom", "ramp255", "ramp256", "smallalpha", "periodic", "random", "magicmix", "repeatblocks", "sorted", "utf8dirty", "longruns", "farmatch", "crlfcut", "constchunks", "randtext", "bigvocab", "fsdstress", "ffmix", "wordlist", "wordlist3", "staircase", "staircase2", "clusterq", "fibword", "thuemorse", "bigperiod", "utfcont", "rangeedge", "vocabrepeat",
 }
 
 var words = strings.Fields(`the of and to a in is that it was for on are as with his they at be this from have or by one had not but what all were
@@ -318,6 +318,31 @@ func Make(shape string, n int, seed int64) []byte {
 			} else {
 				b = append(b, ' ')
 			}
+		}
+		b = b[:n]
+	case "vocabrepeat":
+		// 85 % of the block: words that are (almost surely) all different; last 15 %: the most recent of those words again, in
+		// order - references to dictionary entries with the highest indexes a block of this size can create
+		var starts []int
+		lim := n * 85 / 100
+		for i := 0; len(b) < lim; i++ {
+			starts = append(starts, len(b))
+			ln := 5 + r.Intn(6)
+			for k := 0; k < ln; k++ {
+				b = append(b, byte('a'+r.Intn(26)))
+			}
+			if i%10 == 9 {
+				b = append(b, '\n')
+			} else {
+				b = append(b, ' ')
+			}
+		}
+		first := len(starts) * 80 / 100
+		for i := first; len(b) < n && i+1 < len(starts); i++ {
+			b = append(b, b[starts[i]:starts[i+1]]...)
+		}
+		for len(b) < n {
+			b = append(b, ' ')
 		}
 		b = b[:n]
 	case "rangeedge":
